@@ -57,14 +57,23 @@ func VerifH_C09_matching() {
 	h2 := vpHonestHeader(&h1, 2, 2)
 	blk1 := &wire.MsgBlock{Header: h1, Transactions: []*wire.MsgTx{fund}}
 	blk2 := &wire.MsgBlock{Header: h2}
+	// the spending transactions sit in the next block, or later in the funding
+	// block itself (created and spent in one block)
+	sameBlock := vpRange("spendsInTheFundingBlock", 0, 1) == 1
 	spent := make([]bool, nout)
+	var spends []*wire.MsgTx
 	for o := 0; o < nout; o++ {
 		if vpRange("spent", 0, 1) == 1 {
 			spent[o] = true
-			blk2.Transactions = append(blk2.Transactions, &wire.MsgTx{Version: 2, LockTime: uint32(20 + o),
+			spends = append(spends, &wire.MsgTx{Version: 2, LockTime: uint32(20 + o),
 				TxIn:  []*wire.TxIn{{PreviousOutPoint: wire.OutPoint{Hash: fh, Index: uint32(o)}}},
 				TxOut: []*wire.TxOut{{Value: 1, PkScript: other}}})
 		}
+	}
+	if sameBlock {
+		blk1.Transactions = append(blk1.Transactions, spends...)
+	} else {
+		blk2.Transactions = append(blk2.Transactions, spends...)
 	}
 	c := &vpRescanChain{params: params, best: []wire.BlockHeader{g, h1, h2}, blocks: map[chainhash.Hash]*wire.MsgBlock{
 		h1.BlockHash(): blk1, h2.BlockHash(): blk2}, filters: map[chainhash.Hash]*gcs.Filter{}}
@@ -82,15 +91,27 @@ func VerifH_C09_matching() {
 	}
 	if paysWatched {
 		vpReach("funding-pays-a-watched-address")
-		vpAssert(len(got1) == 1 && got1[0].MsgTx() == fund, "tx-paying-a-watched-address-is-delivered")
+		vpAssert(len(got1) >= 1 && got1[0].MsgTx() == fund, "tx-paying-a-watched-address-is-delivered")
 	} else {
 		vpAssert(len(got1) == 0, "irrelevant-tx-is-not-delivered")
 	}
 	got2, err2 := extractBlockMatches(c, ro, &headerfs.BlockStamp{Height: 2, Hash: h2.BlockHash()}, filter)
 	vpAssert(err2 == nil, "block-2-processed")
+	if sameBlock {
+		// the spends were examined with the funding block: they are what got1 holds beyond the funding tx
+		vpAssert(len(got2) == 0, "nothing-relevant-in-an-empty-block")
+		if paysWatched {
+			got2 = got1[1:]
+		} else {
+			got2 = got1
+		}
+		if len(spends) > 0 && paysWatched {
+			vpReach("output-created-and-spent-in-one-block")
+		}
+	}
 	// every spend of an output that paid a watched address must be delivered, nothing else
 	want := 0
-	for _, tx := range blk2.Transactions {
+	for _, tx := range spends {
 		o := int(tx.TxIn[0].PreviousOutPoint.Index)
 		relevant := kinds[o] != 0
 		found := false
